@@ -112,8 +112,8 @@ int libwifi_parse_radiotap_info(struct libwifi_radiotap_info *info, const unsign
                 break;
             case IEEE80211_RADIOTAP_MCS:
                 info->mcs.known = *(uint8_t *) it.this_arg;
-                info->mcs.flags = *(uint8_t *) (it.this_arg + 2);
-                info->mcs.mcs = *(uint8_t *) (it.this_arg + 3);
+                info->mcs.flags = *(uint8_t *) (it.this_arg + 1);
+                info->mcs.mcs = *(uint8_t *) (it.this_arg + 2);
                 break;
             case IEEE80211_RADIOTAP_DBM_TX_POWER:
                 info->tx_power = *it.this_arg;
